@@ -5,7 +5,12 @@ over arity <= 3 (arity 4 sampled in quick, full in thorough), every subset of pa
 defaults, every call shape (positional prefix length x named subset x a few permutations) for
 free functions, member functions, struct constructors and variant constructors with named
 fields; every misuse shape (unknown / duplicate / missing name, positional after named) must be
-rejected with a diagnostic and never crash the compiler."""
+rejected with a diagnostic and never crash the compiler.
+
+Second family (`dexpr`): the default value is an EXPRESSION (call, operator, constructor, a call
+that itself relies on defaults, block, lambda ...) of various types; the call that leaves it off
+must behave like the positional call with the expression written out, for every callee kind.
+A default that would need itself (the checker must report it, never overflow) is a reject case."""
 import itertools
 
 from checks.common import Case, run_cases
@@ -102,6 +107,113 @@ def misuse(n, mask):
     return out
 
 
+HELPERS = """fn hlp() -> int = 40
+fn dflt(q: int = 9, w: int = hlp() + 2) -> int = q + w
+type Bx2 = {
+  v: int
+  u: int = 3
+}
+extend Bx2 {
+  fn twice(self) -> int = self.v * 2
+}
+"""
+
+# (label, type, source, rendered)
+DEXPRS = [
+    ("call", "int", "hlp()", "40"),
+    ("call-plus", "int", "hlp() + 1", "41"),
+    ("arith", "int", "2 * 3 + 1", "7"),
+    ("neg", "int", "-5", "-5"),
+    ("paren-neg", "int", "-(2 + 3)", "-5"),
+    ("method", "int", "Bx2(8).twice()", "16"),
+    ("binding-pattern", "int", "match (1, hlp()) {\n  (x, y) -> x + y\n}", "41"),
+    ("if", "int", "if 1 < 2 { 11 } else { 12 }", "11"),
+    ("ctor-field", "int", "Bx2(8).v", "8"),
+    ("ctor-default-field", "int", "Bx2(8).u", "3"),
+    ("call-with-own-defaults", "int", "dflt()", "51"),
+    ("call-with-own-default-named", "int", "dflt(w = 1)", "10"),
+    ("block", "int", "{\n  let t = 3\n  t + 1\n}", "4"),
+    ("match", "int", "match 2 {\n  2 -> 22\n  _ -> 0\n}", "22"),
+    ("concat", "string", '"a" .. "b"', "ab"),
+    ("concat-int", "string", '"n" .. hlp()', "n40"),
+    ("array", "array<int>", "[hlp(), 2]", "[ 40, 2 ]"),
+    ("empty-array", "array<int>", "[]", "[  ]"),
+    ("not", "bool", "not false", "true"),
+    ("cmp", "bool", "hlp() > 39 and true", "true"),
+    ("float", "float", "1.5 + 2.0", "3.5"),
+    ("tuple", "(int, string)", '(hlp(), "x")', "(40, x)"),
+    ("option", "option<int>", "option.some(hlp())", "some(40)"),
+]
+
+
+def dexpr_decl(kind, tag, layout, ty, src):
+    if layout == 0:
+        ps = ["pa: int", "pb: %s = %s" % (ty, src), "pc: int = 5"]
+    else:
+        ps = ["pa: %s = %s" % (ty, src), "pb: int = 5"]
+    names = ["pa", "pb", "pc"][:len(ps)]
+    shown = ' .. "," .. '.join(names)
+    if kind == "fn":
+        return "fn g%s(%s) {\n  println(%s)\n}\n" % (tag, ", ".join(ps), shown), "g%s" % tag, names
+    if kind == "member":
+        return "extend Recv {\n  fn k%s(self, %s) {\n    println(self.z .. \":\" .. %s)\n  }\n}\n" % (tag, ", ".join(ps), shown), "k%s" % tag, names
+    if kind == "struct":
+        return "type Sd%s = {\n%s\n}\n" % (tag, "\n".join("  " + q for q in ps)), "Sd%s" % tag, names
+    return "type Ed%s = | Vd%s(%s) | Wd%s\n" % (tag, tag, ", ".join(ps), tag), "Ed%s.Vd%s" % (tag, tag), names
+
+
+def dexpr_call(kind, callee, names, argtext):
+    if kind == "fn":
+        return "%s(%s)" % (callee, argtext)
+    if kind == "member":
+        return "Recv(7).%s(%s)" % (callee, argtext)
+    if kind == "struct":
+        return "{\n  let r = %s(%s)\n  println(%s)\n}" % (callee, argtext, ' .. "," .. '.join("r." + x for x in names))
+    vn = callee.split(".")[1]
+    return "{\n  let r = %s(%s)\n  match r {\n    .%s(%s) -> println(%s)\n    _ -> println(\"other\")\n  }\n}" % (
+        callee, argtext, vn, ", ".join(names), ' .. "," .. '.join(names))
+
+
+def dexpr_cases():
+    cases = []
+    n = 0
+    for kind in KINDS:
+        for (label, ty, src, shown) in DEXPRS:
+            for layout in (0, 1):
+                n += 1
+                d, callee, names = dexpr_decl(kind, "x%d" % n, layout, ty, src)
+                pre = "7:" if kind == "member" else ""
+                if layout == 0:
+                    calls = [("omit", "1", "1,%s,5" % shown), ("omit-then-named", "1, pc = 6", "1,%s,6" % shown),
+                             ("all-named-omit", "pc = 6, pa = 2", "2,%s,6" % shown), ("written-out", "1, %s" % src, "1,%s,5" % shown),
+                             ("written-out-named", "pb = %s, pa = 3" % src, "3,%s,5" % shown)]
+                else:
+                    calls = [("omit-all", "", "%s,5" % shown), ("omit-first", "pb = 1", "%s,1" % shown), ("written-out", src, "%s,5" % shown)]
+                for (cl, argtext, exp) in calls:
+                    if "\n" in argtext:
+                        continue  # multi-line expressions are only used as declared defaults
+                    key = "dexpr %s %s layout=%d call=%s" % (kind, label, layout, cl)
+                    cases.append(Case(key, dexpr_call(kind, callee, names, argtext), ("out", pre + exp + "\n"), d))
+    return cases
+
+
+NEEDS_ITSELF = {
+    "fn-direct": "fn sf(a: int, b: int = sf(3)) -> int = a + b\nprintln(sf(1))\n",
+    "fn-indirect": "fn sf(a: int, b: int = sg(3)) -> int = a + b\nfn sg(a: int, b: int = sf(3)) -> int = a + b\nprintln(sf(1))\n",
+    "struct-direct": "type Pq = {\n  x: int\n  y: int = Pq(3).x\n}\nprintln(Pq(1).y)\n",
+    "struct-indirect": "type Pq = {\n  x: int\n  y: int = Rq(3).x\n}\ntype Rq = {\n  x: int\n  y: int = Pq(3).x\n}\nprintln(Pq(1).y)\n",
+    "member-direct": "type Pq = {\n  x: int\n}\nextend Pq {\n  fn mm(self, k: int = Pq(1).mm()) -> int = k\n}\nprintln(Pq(1).mm())\n",
+    "fn-default-names-own-parameter": "fn sf(a: int, b: int = a + 1) -> int = a + b\nprintln(sf(1))\n",
+}
+# not needing itself: the default supplies every argument
+TERMINATING = {
+    "lambda-default": ("fn hq() -> int = 40\nfn ap(v: int, f: int -> int = x -> x + hq()) -> int = f(v)\nprintln(ap(1))\nprintln(ap(1, y -> y))\n", "41\n1\n"),
+    "default-used-in-lambda-and-recursion": ("fn fq(a: int, b: int = {\n  let t = 3\n  t + 1\n}) -> int = a + b\nlet g = x -> x + fq(10)\nprintln(g(1))\nfn hq(n: int) -> int = if n == 0 { 0 } else { fq(n) + hq(n - 1) }\nprintln(hq(3))\nprintln(fq(1) + fq(2))\n", "15\n18\n11\n"),
+    "fn-full-call-in-default": ("fn sf(a: int, b: int = sf(3, 4)) -> int = a + b\nprintln(sf(1))\n", "8\n"),
+    "struct-full-call-in-default": ("type Pq = {\n  x: int\n  y: int = Pq(3, 4).x\n}\nprintln(Pq(1).y)\n", "3\n"),
+}
+
+
 def run(ctx):
     r = ctx.rng.fork("c18")
     cases = []
@@ -123,12 +235,42 @@ def run(ctx):
                     for label, args in misuse(n, mask):
                         key = "%s n=%d defaults=%s misuse=%s" % (kind, n, format(mask, "0%db" % n), label)
                         rejects.append((key, "type Recv = {\n  z: int\n}\n" + d + call_text(kind, callee, n, args) + "\n"))
+    for k, src in NEEDS_ITSELF.items():
+        rejects.append(("dexpr needs-itself %s" % k, src))
     nruns, observed, failures = run_cases(ctx, "c18", cases, lambda c: "C18 " + c.key, per_prog=150, extra_decls="type Recv = {\n  z: int\n}\n")
+    dcases = dexpr_cases() + [Case("dexpr terminating %s" % k, "", ("out", exp), None) for k, (src, exp) in TERMINATING.items()]
+    term = {"dexpr terminating %s" % k: src for k, (src, exp) in TERMINATING.items()}
+    dc = [c for c in dcases if c.key not in term]
+    n2, obs2, fail2 = run_cases(ctx, "c18d", dc, lambda c: "C18 " + c.key, per_prog=40, extra_decls="type Recv = {\n  z: int\n}\n" + HELPERS)
+    nruns += n2
+    observed |= obs2
+    failures += fail2
+    cases = cases + dc
+    tjobs = [{"id": "term%d" % i, "files": {"main.abra": src}, "runs": [{}]} for i, (k, (src, exp)) in enumerate(TERMINATING.items())]
+    tres = ctx.run(tjobs)
+    for (k, (src, exp)), job in zip(TERMINATING.items(), tjobs):
+        def tjudge(res, k=k, exp=exp):
+            import vlib
+            cr = vlib.crash_of(res)
+            if cr:
+                return [("C18 dexpr terminating " + k, cr[1])]
+            if not res.get("compile", {}).get("ok"):
+                return [("C18 dexpr terminating " + k, "rejected: %s" % str(res.get("compile"))[:300])]
+            out = [x.get("output") for x in res.get("runs", [])]
+            if out != [exp]:
+                return [("C18 dexpr terminating " + k, "printed %r, expected %r" % (out, exp))]
+            return []
+        nruns += 1
+        for sig, what in tjudge(tres[job["id"]]):
+            ctx.candidate(sig, what, job, tjudge)
     jobs = [{"id": "mis%04d" % i, "mode": "checkcompile", "files": {"main.abra": src}} for i, (key, src) in enumerate(rejects)]
     results = ctx.run(jobs)
     for (key, src), job in zip(rejects, jobs):
         def judge(res, key=key):
             sig = "C18 " + key
+            cr = __import__("vlib").crash_of(res)
+            if cr:
+                return [(sig, "compiler died on argument misuse: %s" % cr[1])]
             c, k = res.get("check", {}), res.get("compile", {})
             if c.get("panic") or k.get("panic"):
                 return [(sig, "compiler panicked on argument misuse: %s" % (c.get("panic") or k.get("panic")))]
@@ -144,6 +286,8 @@ def run(ctx):
              "compared with the binding reference; misuse shapes must be rejected by check and compile_bytecode without a panic",
         samples=[{"case": c.key, "decl": c.decls, "call": c.body, "expected": c.expect[1]} for c in (cases[5], cases[-1])],
         valid_shapes=len(cases),
+        default_expression_cases=len(dc),
+        default_expression_kinds=[x[0] for x in DEXPRS],
         misuse_shapes=len(rejects),
         exhaustive=not ctx.quick,
         failures=failures[:20],
